@@ -300,7 +300,7 @@ def run(ctx):
                 "compared exactly with the model and judged against an independent recomputation and the plaquette statements; "
                 "non-trivial = the operation changes the lattice; distinct by (lattice, operation, argument)")
     rep0 = core.guarded_translate(ctx, translate.regenerate_all, "T-int/T-const", dict(kernels=[], tables=[], changed={}))
-    ctx.translated = [k for k in rep0["kernels"] if k["kernel"] == "cut_keep"]
+    core.note_translation(ctx, [k for k in rep0["kernels"] if k["kernel"] == "cut_keep"])
     ctx.run_audit()
     rng = np.random.default_rng(ctx.seed)
     reqs, meta = [], []
